@@ -116,8 +116,11 @@ func c11RunAttempt(c c11AttemptCase, scratch string, seq int) (string, string) {
 	var pending []write
 	cur := ""
 	violation := ""
+	// The misattribution itself is reported in preference to the shared
+	// identity that makes it possible.
 	note := func(v string) {
-		if violation == "" {
+		if violation == "" || (strings.HasPrefix(v, "stale_attempt_attributed") &&
+			!strings.HasPrefix(violation, "stale_attempt_attributed")) {
 			violation = v
 		}
 	}
